@@ -104,7 +104,30 @@ func genName(r *common.Rand, g *common.Gen) enc.Name {
 // close variant of a name: differs in one byte / one length / one type / is a prefix / extension / equal
 func variant(r *common.Rand, g *common.Gen, a enc.Name) enc.Name {
 	b := a.Clone()
-	switch r.Intn(8) {
+	switch r.Intn(9) {
+	case 8:
+		// two short values (at most 8 bytes) of DIFFERENT length where the longer one is the smaller
+		// big-endian number (leading zero bytes): canonical order is by length first, never by number
+		var cand []int
+		for i := range b {
+			if n := len(b[i].Val); n >= 1 && n <= 7 && b[i].Val[0] != 0 {
+				cand = append(cand, i)
+			}
+		}
+		if len(cand) == 0 {
+			g.Stat("pair-independent")
+			return genName(r, g)
+		}
+		g.Stat("pair-short-longer-is-smaller-number")
+		i := common.Pick(r, cand)
+		n := r.Range(len(b[i].Val)+1, 8)
+		v := make([]byte, n)
+		copy(v[1:], r.Bytes(n-1))
+		if r.Chance(1, 2) { // same digits behind the zero
+			copy(v[n-len(b[i].Val):], b[i].Val)
+		}
+		b[i].Val = v
+		return b
 	case 0:
 		g.Stat("pair-equal")
 		return b
